@@ -1374,3 +1374,58 @@ Proof.
   - destruct (params_langevin c NZ) as (Hl & Hg & _). fold p in Hl, Hg. rewrite Hg, Hl.
     split; [lra | ]. split; [split; [intros _; exact NZ | reflexivity] | split; assumption].
 Qed.
+
+(* ================================================================== round 5 *)
+(* a job that started between two steps of a timeStepFactor > 1 variable, state written before the variable's first update: nothing
+   is saved for the extended coordinate, the new job initialises it at its first update exactly as the uninterrupted job does *)
+Lemma resume_before_first_update c p t i l :
+  i_running i = true -> (0 <= t < i_step i)%Z ->
+  List.Forall (fun j => i_running j = true /\ (i_step i < i_step j)%Z) l ->
+  saved_xv_opt Rops (init_state Rops) t = None /\
+  (forall n, saved_xv_opt Rops (Nat.iter n (sleep Rops) (init_state Rops)) t = None) /\
+  trace Rops c p (restart_state_opt Rops None) (map (shift_input t) (i :: l))
+  = map (shift_state t) (trace Rops c p (init_state Rops) (i :: l)).
+Proof.
+  intros Hrun Ht Hl. split; [reflexivity | ]. split.
+  { intros n. assert (H : s_x_ext (Nat.iter n (sleep Rops) (init_state Rops)) = None) by (induction n as [| n IH]; [reflexivity | cbn [Nat.iter]; exact IH]).
+    unfold saved_xv_opt. rewrite H. reflexivity. }
+  cbn [map trace restart_state_opt].
+  set (r0 := mkState None (n0 Rops) (n0 Rops) (n0 Rops) (-1)%Z (n0 Rops) true (n0 Rops) (n0 Rops) (n0 Rops) (n0 Rops) (n0 Rops) (n0 Rops) (n0 Rops) false).
+  set (i0 := shift_input t i).
+  assert (Hp : props_xv Rops c (init_state Rops) i = (clamp_init Rops c (i_x i), 0)).
+  { apply props_first; [exact Hrun | cbn; lia | reflexivity]. }
+  assert (Hp0 : props_xv Rops c r0 i0 = (clamp_init Rops c (i_x i), 0)).
+  { unfold r0, i0. rewrite props_first; [reflexivity | exact Hrun | cbn; lia | reflexivity]. }
+  assert (He : tsf_error c (init_state Rops) i = false) by reflexivity.
+  assert (He0 : tsf_error c r0 i0 = false) by reflexivity.
+  assert (Hfirst : step Rops c p r0 i0 = shift_state t (step Rops c p (init_state Rops) i)).
+  { rewrite (step_running_eq c p r0 i0 Hrun He0), (step_running_eq c p _ i Hrun He). rewrite Hp, Hp0. reflexivity. }
+  rewrite Hfirst. f_equal.
+  destruct (step_keeps_live c p (init_state Rops) i Hrun) as (L1 & L2 & L3).
+  apply trace_shift; auto; [lia | ].
+  eapply Forall_impl; [ | exact Hl]. intros j [Hj1 Hj2]. split; [exact Hj1 | lia].
+Qed.
+
+(* continuing from any live state with ANY parameters (a changed engine time step, or a job with other extended-Lagrangian parameters)
+   equals a fresh object started from the integrated values with those parameters: the state carries nothing else *)
+Lemma continue_with_parameters c p s t xe i l :
+  s_x_ext s = Some xe -> s_after_restart s = false -> (0 <= t)%Z -> (0 <= s_prev_ts s < i_step i)%Z -> (t < i_step i)%Z ->
+  i_running i = true -> tsf_error c s i = false ->
+  List.Forall (fun j => i_running j = true /\ (i_step i < i_step j)%Z) l ->
+  trace Rops c p (restart_state Rops xe (s_v_ext s)) (map (shift_input t) (i :: l))
+  = map (shift_state t) (trace Rops c p s (i :: l)).
+Proof.
+  intros Hx Har Ht Hts Hst Hrun Herr Hl. cbn [map trace].
+  set (r0 := restart_state Rops xe (s_v_ext s)). set (i0 := shift_input t i).
+  assert (Hp : props_xv Rops c s i = (xe, s_v_ext s)).
+  { apply props_continue; auto; [lia | left; lia]. }
+  assert (Hp0 : props_xv Rops c r0 i0 = (xe, s_v_ext s)).
+  { unfold r0, i0. rewrite (props_continue c _ _ xe); [reflexivity | exact Hrun | cbn; lia | reflexivity | right; reflexivity]. }
+  assert (Herr0 : tsf_error c r0 i0 = false) by (apply tsf_error_consec; left; reflexivity).
+  assert (Hfirst : step Rops c p r0 i0 = shift_state t (step Rops c p s i)).
+  { rewrite (step_running_eq c p r0 i0 Hrun Herr0), (step_running_eq c p s i Hrun Herr). rewrite Hp, Hp0. reflexivity. }
+  rewrite Hfirst. f_equal.
+  destruct (step_keeps_live c p s i Hrun) as (L1 & L2 & L3).
+  apply trace_shift; auto; [lia | ].
+  eapply Forall_impl; [ | exact Hl]. intros j [Hj1 Hj2]. split; [exact Hj1 | lia].
+Qed.
